@@ -401,7 +401,7 @@ HandleFileListRequest(rfbClientPtr cl, rfbTightClientRec* data)
  * Methods to Handle File Download Request.
  ******************************************************************************/
 
-void HandleFileDownloadLengthError(rfbClientPtr cl, short fNameSize);
+void HandleFileDownloadLengthError(rfbClientPtr cl, unsigned short fNameSize);
 void SendFileDownloadLengthErrMsg(rfbClientPtr cl);
 void HandleFileDownload(rfbClientPtr cl, rfbTightClientPtr data);
 #ifdef TODO
@@ -485,12 +485,13 @@ HandleFileDownloadRequest(rfbClientPtr cl, rfbTightClientPtr rtcp)
 
 
 void
-HandleFileDownloadLengthError(rfbClientPtr cl, short fNameSize)
+HandleFileDownloadLengthError(rfbClientPtr cl, unsigned short fNameSize)
 {
 	char *path = NULL;
 	int n = 0;
 	
-	if((path = (char*) calloc(fNameSize, sizeof(char))) == NULL) {
+	/* one more byte: the name is logged as a C string */
+	if((path = (char*) calloc((size_t)fNameSize + 1, sizeof(char))) == NULL) {
 		rfbLog("File [%s]: Method [%s]: Fatal Error: Alloc failed\n", 
 				__FILE__, __FUNCTION__);
 		return;
@@ -686,7 +687,7 @@ HandleFileDownloadCancelRequest(rfbClientPtr cl, rfbTightClientPtr rtcp)
 void HandleFileUploadRequest(rfbClientPtr cl);
 #endif
 void HandleFileUpload(rfbClientPtr cl, rfbTightClientPtr data);
-void HandleFileUploadLengthError(rfbClientPtr cl, short fNameSize);
+void HandleFileUploadLengthError(rfbClientPtr cl, unsigned short fNameSize);
 void SendFileUploadLengthErrMsg(rfbClientPtr cl);
 
 
@@ -755,12 +756,13 @@ HandleFileUploadRequest(rfbClientPtr cl, rfbTightClientPtr rtcp)
 
 
 void
-HandleFileUploadLengthError(rfbClientPtr cl, short fNameSize)
+HandleFileUploadLengthError(rfbClientPtr cl, unsigned short fNameSize)
 {
 	char *path = NULL;
 	int n = 0;
 	
-	if((path = (char*) calloc(fNameSize, sizeof(char))) == NULL) {
+	/* one more byte: the name is logged as a C string */
+	if((path = (char*) calloc((size_t)fNameSize + 1, sizeof(char))) == NULL) {
 		rfbLog("File [%s]: Method [%s]: Fatal Error: Alloc failed\n", 
 				__FILE__, __FUNCTION__);
 		return;
